@@ -71,6 +71,15 @@ def run(tier, seed):
     try:
         for si, n in enumerate(sizes):
             srcs = [gen_source(rnd, n, ok_sp) for _ in range(3)]      # standard, ancillary, tankan
+            # the three sources are independent of each other: a word of the standard source is ALSO a line of the tankan and of the ancillary
+            # source (the kanji 木/き is both a word and a single kanji); a generator of its own, so the sources above stay what they were
+            crnd = random.Random(f"{seed}/{si}/shared")
+            shared = [(l, g) for l, g in zip(*srcs[0]) if g]
+            for side in (2, 1):
+                for l, g in crnd.sample(shared, min(len(shared), max(2, n // 20))):
+                    at = crnd.randint(0, len(srcs[side][0]))
+                    srcs[side][0].insert(at, l)
+                    srcs[side][1].insert(at, [dict(e) for e in g])
             out = make_dictionary(wd, srcs[0][0], srcs[1][0], srcs[2][0], name=f"d{si}.dat")
             total_lines += 3 * n
             # expected per side: reading -> words in source order (conjugation through the real library)
